@@ -348,11 +348,7 @@ func randShape(r *lib.Rng, depth int, m genMode, allowStruct bool, pos byte) *Sh
 	}
 	switch r.Intn(10) {
 	case 0, 1, 2:
-		e := randShape(r, depth-1, m, allowStruct, 'W')
-		if m.clean && pos == 'W' && e.K == "uint8" {
-			e = sh("uint16")
-		}
-		return sliceOf(e)
+		return sliceOf(randShape(r, depth-1, m, allowStruct, 'W'))
 	case 3, 4:
 		var k *Shape
 		if r.Chance(1, 2) {
